@@ -111,8 +111,8 @@ def mixed(own, tier, pid, need_watch=False, serial_only=False):
         for a in sc['actors']:
             ops = []
             for op in a:
-                if op[0] in ('replay', 'expect'):
-                    continue
+                if op[0] in ('replay', 'expect') or (need_watch and op[0] == 'redisp'):
+                    continue  # (the stability check excludes user re-dispatch of an event that may already have completed)
                 if op[0] == 'disp' and len(op) > 3 and isinstance(op[3], dict) and 'also' in op[3]:
                     op = op[:3] + [{k: v for k, v in op[3].items() if k != 'also'}]
                 ops.append(op)
